@@ -45,7 +45,8 @@ CHECKS = {
         note="Scaled-down arenas via the guarded constants override; arena addresses chosen by the harness."),
     "C05": dict(
         engine="seqx", technique="exhaustive enumeration of allocator histories x checkpoint intervals x rollback targets through the real "
-        "checkpoint/restore code with coast forward, against shadow snapshots",
+        "checkpoint/restore code with coast forward, against shadow snapshots (addresses included); plus deviation-bounded exploration of the "
+        "whole runtime on RNG-driven models (1-2 ranks) and complete-state search of the real process_msg step function over every delivery order (h_proc)",
         level="model_checking", design_ref="DESIGN.md 4/C05",
         text="Every history of 5 (thorough 6) allocator events x interval 1..3 x rollback target x second rollback on small arenas incl. "
              "growth to 3 arenas after the restored checkpoint, and 4 (5) events on production constants: restored state, coast forward, "
@@ -102,7 +103,7 @@ CHECKS = {
              "handler and an external thread, p<=1 (thorough 2): every entry leaving a history below the GVT is, in order and content and "
              "state hash, the next event of the sequential per-LP sequence; nothing at or above the GVT is released.",
         note="1-2 ranks; call granularity."),
-    "C04": dict(engine="rsched", technique="preemption/deviation-bounded exhaustive exploration of the real runtime under a deterministic scheduler (fork per execution, delay-bounded levels) with every atomic of the GVT/termination/queue code as scheduling point", level="model_checking",
+    "C04": dict(engine="rsched", technique="preemption/deviation-bounded exhaustive exploration of the real runtime under a deterministic scheduler (fork per execution, delay-bounded levels) with every atomic of the GVT/termination/queue code as scheduling point; complete-state search of the thread-phase protocol (h_gvt) and of the GVT accounting contract of process_msg over every delivery order (h_proc)", level="model_checking",
         design_ref="DESIGN.md 4/C04",
         text="Fine-grained interleavings (p<=1; thorough p<=2) of the GVT reduction with message traffic on tiny models, 2-3 threads, plus "
              "call-granularity p<=2: per-thread GVT sequences monotone and equal, no extraction/rollback below a told value, nothing "
@@ -140,7 +141,7 @@ CHECKS = {
              "layout and compared record by record with the occurrences counted by the wrappers; shipped parser as second reader. "
              "The unequal-record-count defect it found is repaired (fix: e8e7b02).",
         note="Counters only, one rank."),
-    "C11": dict(engine="rsched", technique="the bounded exhaustive enumerations of the other checks re-run on ASan+UBSan builds of the core",
+    "C11": dict(engine="rsched", technique="the bounded exhaustive enumerations of the other checks (rsched whole-runtime exploration, h_proc complete-state search, seqx enumerators) re-run on ASan+UBSan builds of the core",
         level="model_checking", design_ref="DESIGN.md 4/C11",
         text="Whole runtime (parallel, 2-rank, ended by time/stop, 40-byte payloads, multi-arena memory), serial runtime on the grammar, "
              "allocator/checkpoint/fossil enumerators, numerical and topology libraries under AddressSanitizer+UBSan: any report is the "
